@@ -146,6 +146,7 @@ def _result_obs(label, fn):
     try:
         r = fn()
     except Exception as e:  # noqa: BLE001 — the exception class is the observation
+        cm.reraise_timeout(e)
         return {"error": cm.exc_name(e)}
     return r
 
@@ -155,6 +156,7 @@ def _ops_obs(path):
     try:
         toks = paths.tokenize(path)
     except Exception as e:  # noqa: BLE001
+        cm.reraise_timeout(e)
         return {"error": cm.exc_name(e)}
     out = []
     for op, data in toks:
@@ -184,6 +186,7 @@ def _find_obs(start, label, path, single, strict, as_segments=None):
             arg = path.split("/")
         r = start.find(arg, single=single, strict=strict)
     except Exception as e:  # noqa: BLE001
+        cm.reraise_timeout(e)
         return {"error": cm.exc_name(e)}
     if single:
         return {"one": None if r is None else label.get(id(r), "not-an-element")}
@@ -243,7 +246,8 @@ class C14(Property):
     rule = ""
     exhaustive_note = ""
     quick_n = 70000
-    thorough_n = 900000
+    thorough_n = 500000
+    case_timeout = 120  # cases take microseconds; the alarm only guards against a hung interpreter
 
     # -------------------------------------------------------------- cases
     def _case(self, tree, start, path, strict, single, ast=None, as_segments=None):
